@@ -176,12 +176,75 @@ let run_Q ss cout =
                else String.concat "," (List.map2 (fun x g -> chk [x] g) s got));
     "pf:" ^ (match s with [] -> "-" | x :: _ -> chk [x] (get "pf:")) ]
 
+(* ---- A: sets with algebraic / mixed end points (valio tokens).  The end points' (is_integer, floor, ceiling)
+   and all comparisons come from the exact reference RefAlg; the integer queries are the extracted [epi]
+   programs (proved equal to the rational-end-point model), the picks are checked: member, and an integer
+   whenever the set (interval) contains one. *)
+exception Fuel
+let afuel = nat_of_int 4000
+let some_or_fuel = function Some x -> x | None -> raise Fuel
+
+let parse_aset (s : string) : xval itv list =
+  if s = "{}" then [] else
+  List.map (fun t ->
+    let n = String.length t in
+    if n < 3 then raise (Bad t) else
+    let ep x = snd (value_of_token x) in
+    if t.[0] = '{' then
+      let a = ep (String.sub t 1 (n - 2)) in
+      { ia = a; ib = a; ia_open = false; ib_open = false; ipt = true }
+    else begin
+      let body = String.sub t 1 (n - 2) in
+      match String.index_opt body '|' with
+      | None -> raise (Bad t)
+      | Some k ->
+        let a = ep (String.sub body 0 k) and b = ep (String.sub body (k + 1) (String.length body - k - 1)) in
+        { ia = a; ib = b; ia_open = (t.[0] = '('); ib_open = (t.[n - 1] = ')'); ipt = false }
+    end) (String.split_on_char ';' s)
+
+let epi_of_xval (v : xval) : epi =
+  match v with
+  | XFin x -> EPFin (some_or_fuel (rn_is_integer afuel x), some_or_fuel (rn_floor afuel x), some_or_fuel (rn_ceiling afuel x))
+  | _ -> EPInf
+let epi_of_itv (x : xval itv) : epi itv = { x with ia = epi_of_xval x.ia; ib = epi_of_xval x.ib }
+
+let xcmp (a : xval) (b : xval) : comparison =
+  match sgn_of_z (some_or_fuel (xv_cmp afuel a b)) with 0 -> Eq | s when s < 0 -> Lt | _ -> Gt
+
+let xval_is_int (v : xval) : bool =
+  match v with XFin x -> some_or_fuel (rn_is_integer afuel x) | _ -> false
+
+let run_A ss cout =
+  let s = parse_aset ss in
+  let es = List.map epi_of_itv s in
+  let chk (sub : xval itv list) (got : string) : string =
+    match (try Some (snd (value_of_token got)) with Bad_value _ -> None) with
+    | None -> "BAD-VALUE(" ^ got ^ ")"
+    | Some v ->
+      if not (List.exists (fun x -> itv_contains xcmp x v) sub) then "NOT-IN-SET(" ^ got ^ ")"
+      else if es_contains_int (List.map epi_of_itv sub) && not (xval_is_int v) then "NOT-AN-INTEGER(" ^ got ^ ")"
+      else got in
+  let get pre = (match field cout pre with Some x -> x | None -> "MISSING") in
+  String.concat " " [
+    "ci:" ^ string_of_bool01 (es_contains_int es);
+    "cnt:" ^ string_of_z (es_count_int es);
+    "pi:" ^ string_of_bool01 (es_is_point_int es);
+    "ici:" ^ String.concat "" (List.map (fun x -> string_of_bool01 (ei_contains_int x)) es);
+    "icnt:" ^ String.concat "," (List.map (fun x -> string_of_z (ei_count_int x)) es);
+    "pk:" ^ (if s = [] then "-" else chk s (get "pk:"));
+    "ipk:" ^ (if s = [] then "-" else
+               let got = split_on ';' (get "ipk:") in
+               if List.length got <> List.length s then "BAD-PICK-COUNT"
+               else String.concat ";" (List.map2 (fun x g -> chk [x] g) s got));
+    "pf:" ^ (match s with [] -> "-" | x :: _ -> chk [x] (get "pf:")) ]
+
 let run (toks : string list) (cout : string list) : string =
   try
     match toks with
     | ["B"; pr; s1; s2] -> run_B pr s1 s2 cout
     | ["C"; i1; i2] -> run_C i1 i2
     | ["Q"; s] -> run_Q s cout
+    | ["A"; s] -> (try run_A s cout with Fuel -> "FUEL" | Bad_value m -> "BAD-CASE " ^ m)
     | ["POOL"] -> string_of_int npool
     | _ -> "UNKNOWN-OP"
   with Bad s -> "BAD-CASE " ^ s
